@@ -96,6 +96,19 @@ def higher_specs(tier, seed):
             els.append(R.tok(s))
         mix = [None, "5000", "25%", "5e4", "10.0%"][k % 5]
         yield ("mol", {"elements": els, "mixture": mix}, (d1, d2))
+    # several weights whose text ends in a dot (the two characters '.|' also open a mixture specifier) in ONE molecule,
+    # on repeat units, end groups, terminals and prefix tokens, with every kind of mixture tail
+    dotted = [["[<|2.|]CC[>|3.|]"], ["[<|2.|]CC[>|3.|]", "[<|4.|]CO[>|1.|]"], ["[<|2.|]CC[>]", "[<]CO[>|5.|]", "[<|1.e1|]CS[>|7.|]"]]
+    for rep in dotted:
+        for endg in ([], ["[<|6.|]Cl"], ["[<|6.|]Cl", "[>|8.|]N"]):
+            for pre, lt in (("", "[]"), ("N", "[>]"), ("CC[>|0.|]", "[>|2.|]")):
+                for mix in (None, "5e3", "25%", "12."):
+                    if lt == "[]" and not any(t.startswith("[>") for t in endg):
+                        continue
+                    k += 1
+                    d1 = dists[k % len(dists)]
+                    els = ([R.tok(pre)] if pre else []) + [R.sto(lt, rep, endg, "[<]" if True else "[]", d1[1]), R.tok("F")]
+                    yield ("mol", {"elements": els, "mixture": mix}, (d1,))
 
 
 def enumerate_cases(tier, seed):
